@@ -163,6 +163,9 @@ func NewMesh(n int, topo string) *Mesh {
 
 var transportNames = []string{"ws", "quic", "h2"}
 
+// WireEdges (re)derives listener and peer configuration from m.Edges.
+func WireEdges(m *Mesh) { m.wireEdges() }
+
 func (m *Mesh) wireEdges() {
 	for _, e := range m.Edges {
 		d, l := m.Nodes[e[0]], m.Nodes[e[1]]
